@@ -144,7 +144,9 @@ def tripwire_table(ctx):
                 name2 = names[(i + 3) % len(names)]
                 spec = ["TRIP", name, name2, role, k]
                 a = run_wl(name, name2, role, False, k)
+                WL.__dict__.pop("_suspended", None)
                 b = run_wl(name, name2, role, True, k)
+                WL.__dict__.pop("_suspended", None)
                 ctx.case(spec, True, ["tripwire:" + name, "role:" + role])
                 compare(ctx, spec, a, b, role, name=name)
 
@@ -170,6 +172,24 @@ def fault_table(ctx, max_calls):
                             if b["nlog"] != n or b["ntraces"] != expect:
                                 ctx.fail("C03/tracing-stops-after-contained-fault", spec,
                                          f"log faults at {fl}: {b['nlog']} log calls / {b['ntraces']} traces kept, expected {n} / {expect}", raise_=False)
+
+
+def exit_fault_table(ctx):
+    """log faults while generators are suspended / were closed early / were abandoned: whatever the tracer does with their
+    pending state when the block ends, a failing log() stays contained and the logger is still flushed exactly once"""
+    base = run_wl("Proto", "TList", "suspended-gen", True)
+    n = base["nlog"]
+    plans = [()] + [(i,) for i in range(1, n + 5)] + [tuple(range(1, n + 8)), tuple(range(n + 1, n + 8))]
+    for fl in plans:
+        for exit_exc in (False, True):
+            for profiler in (False, True):
+                spec = ["EXITFAULT", list(fl), exit_exc, profiler]
+                a = run_wl("Proto", "TList", "suspended-gen", False, 0, (), False, profiler, exit_exc)
+                WL.__dict__.pop("_suspended", None)
+                b = run_wl("Proto", "TList", "suspended-gen", True, 0, fl, False, profiler, exit_exc)
+                WL.__dict__.pop("_suspended", None)
+                ctx.case(spec, True, ["fault-plan", "exit-fault-plan", f"log-faults={min(len(fl), 3)}"])
+                compare(ctx, spec, a, b, "suspended-gen", faults=True, name="Proto")
 
 
 def inspection_fault_table(ctx):
@@ -229,6 +249,8 @@ def shard(ctx):
         fault_table(ctx, 4 if q else 12)
     if ctx.shard == 2 % ctx.nshards:
         inspection_fault_table(ctx)
+    if ctx.shard == 3 % ctx.nshards:
+        exit_fault_table(ctx)
     sc = tracerun.Scratch("c03-")
     try:
         def factory(ctx):
@@ -256,6 +278,13 @@ def replay(ctx, case):
     if case[0] == "TRIP":
         _, name, name2, role, k = case
         compare(ctx, case, run_wl(name, name2, role, False, k), run_wl(name, name2, role, True, k), role, name=name)
+    elif case[0] == "EXITFAULT":
+        _, fl, ee, pr = case
+        a = run_wl("Proto", "TList", "suspended-gen", False, 0, (), False, pr, ee)
+        WL.__dict__.pop("_suspended", None)
+        b = run_wl("Proto", "TList", "suspended-gen", True, 0, tuple(fl), False, pr, ee)
+        WL.__dict__.pop("_suspended", None)
+        compare(ctx, case, a, b, "suspended-gen", faults=True, name="Proto")
     elif case[0] == "FAULT":
         _, name, role, fl, ff, ee, pr, ra = case
         a = run_wl(name, "TList", role, False, 0, (), False, pr, ee, ra)
